@@ -443,6 +443,9 @@ func (w *World) Exec(line string) string {
 			}
 			return "ok"
 		case "subbal":
+			if n.Sign() == 0 { // the SubBalance wrapper itself (a zero debit always succeeds)
+				return s.SubBalance(a, n).String() + " true"
+			}
 			left, ok := s.SubFT(a, common.BLANCE_NAME, n)
 			return left.String() + " " + b2s(ok)
 		case "setbal":
